@@ -263,21 +263,45 @@ Proof.
       eapply QS_impl; [|apply (QS_info toks GoodN SG), (QS_preceded toks GoodN SG); [wf | mono_solve | apply QS_tag | exact IHfac]].
       intros [e inf] H. cbn [fst snd] in *. unfold CE in H. cbn [expr_errors] in H. apply app_eq_nil in H. exact H.
     + (* mul_loop *)
-      intros lhs. cbn [Parser.mul_loop ParserInc.i_mul_loop]. apply (QS_tag_loop GoodN); [exact SG|]. intros t.
+      intros lhs.
+      change (QSg GoodN CE
+                (fun s => match p_tag toks is_mulop s with
+                          | POk s1 op => bind (p_rhs (p_factor f) lhs (op_of (tk op)) s1) (fun s2 e => mul_loop f s2 e)
+                          | PErr _ => POk s lhs | PFuel => PFuel end)
+                (fun s => match i_tag toks is_mulop s with
+                          | IOk s1 op => ibind (i_rhs (i_factor f) lhs (op_of (tk op)) s1) (fun s2 e => i_mul_loop f s2 e)
+                          | IErr _ _ => IOk s lhs | IPanic => IPanic | IFuel => IFuel end)).
+      apply (QS_tag_loop GoodN); [exact SG|]. intros t.
       apply (QS_bindk GoodN CE CE); [exact SG | | exact Mml | apply QS_rhs; [exact Mfac | exact IHfac] | exact IHml | apply mul_loop_sub].
       split; [apply Fwd_rhs; [exact sync_none_ok | fwd_solve sync_none_ok] | apply MonoE_rhs, Mfac].
     + (* mul *)
-      cbn [Parser.p_mul ParserInc.i_mul].
+      change (QSg GoodN CE (fun s => bind (p_factor f s) (fun s1 e => mul_loop f s1 e))
+                           (fun s => ibind (i_factor f s) (fun s1 e => i_mul_loop f s1 e))).
       apply (QS_bindk GoodN CE CE); [exact SG | wf | exact Mml | exact IHfac | exact IHml | apply mul_loop_sub].
     + (* add_loop *)
-      intros lhs. cbn [Parser.add_loop ParserInc.i_add_loop]. apply (QS_tag_loop GoodN); [exact SG|]. intros t.
+      intros lhs.
+      change (QSg GoodN CE
+                (fun s => match p_tag toks is_addop s with
+                          | POk s1 op => bind (p_rhs (p_mul f) lhs (op_of (tk op)) s1) (fun s2 e => add_loop f s2 e)
+                          | PErr _ => POk s lhs | PFuel => PFuel end)
+                (fun s => match i_tag toks is_addop s with
+                          | IOk s1 op => ibind (i_rhs (i_mul f) lhs (op_of (tk op)) s1) (fun s2 e => i_add_loop f s2 e)
+                          | IErr _ _ => IOk s lhs | IPanic => IPanic | IFuel => IFuel end)).
+      apply (QS_tag_loop GoodN); [exact SG|]. intros t.
       apply (QS_bindk GoodN CE CE); [exact SG | | exact Mal | apply QS_rhs; [exact Mmul | exact IHmul] | exact IHal | apply add_loop_sub].
       split; [apply Fwd_rhs; [exact sync_none_ok | fwd_solve sync_none_ok] | apply MonoE_rhs, Mmul].
     + (* add *)
-      cbn [Parser.p_add ParserInc.i_add].
+      change (QSg GoodN CE (fun s => bind (p_mul f s) (fun s1 e => add_loop f s1 e))
+                           (fun s => ibind (i_mul f s) (fun s1 e => i_add_loop f s1 e))).
       apply (QS_bindk GoodN CE CE); [exact SG | wf | exact Mal | exact IHmul | exact IHal | apply add_loop_sub].
     + (* comparison *)
-      cbn [Parser.p_comparison ParserInc.i_comparison].
+      change (QSg GoodN CE
+                (fun s => bind (p_add f s) (fun s1 e =>
+                   match p_tag toks is_cmpop s1 with
+                   | POk s2 op => p_rhs (p_add f) e (op_of (tk op)) s2 | PErr _ => POk s1 e | PFuel => PFuel end))
+                (fun s => ibind (i_add f s) (fun s1 e =>
+                   match i_tag toks is_cmpop s1 with
+                   | IOk s2 op => i_rhs (i_add f) e (op_of (tk op)) s2 | IErr _ _ => IOk s1 e | IPanic => IPanic | IFuel => IFuel end))).
       apply (QS_bindk GoodN CE CE); [exact SG | wf | | exact IHadd | | ].
       * intros a s. apply tag_loop_mono. intros t s2. apply (MonoE_rhs (p_add f) a _ Madd).
       * intros e. apply (QS_tag_loop GoodN); [exact SG|]. intros t. apply QS_rhs; [exact Madd | exact IHadd].
